@@ -532,4 +532,4 @@ def parts(tier):
     return [Part("crash", oracle_crash, enumerate_fn=crash_enum(tier), exhaustive=(not q)),
             Part("leftover", oracle_leftover, strategy=leftover_case(), n=40 if q else 1600),
             Part("schedule", oracle_schedule, strategy=schedule_case(), n=16 if q else 640),
-            Part("lock", oracle_lock, strategy=lock_case(), n=24 if q else 480)]
+            Part("lock", oracle_lock, strategy=lock_case(), n=32 if q else 480)]
